@@ -120,16 +120,14 @@ def downsample_rule(r, rule):
     r.rep.floor(rule, 1)
 
 
-def run(r):
+def pipeline_rules(r, pre=""):
+    """pcDelta itself: histogram pipeline and the normalisation arithmetic (run for the grouped variants of C13 as well)."""
     rep = r.rep
-    rep.explanation = "Every return path of pcDelta, the default-metric table, downsample and the background loader were normalised and compared with the specification; the shipped table's index was read."
-    rep.trust(LIB_FACTS["numpy.histogram"], LIB_FACTS["numpy.random.choice"], LIB_FACTS["DataFrame.sample"], "exact arithmetic (no floating point)")
-    # purity first: cheap, robust, and a recorded violation takes precedence over a later 'cannot decide'
-    check_pure_params(r, "C05-PURE", [D + "pcDelta", D + "downsample", D + "get_default_metric_for_input_data"])
+    rep.trust(LIB_FACTS["numpy.histogram"], "exact arithmetic (no floating point)")
     from ..eff import check_no_dropping
-    check_no_dropping(r, "C05-PIPE", [D + "pcDelta"], "every pair's distance takes part in the histogram")
+    check_no_dropping(r, pre + "C05-PIPE", [D + "pcDelta"], "every pair's distance takes part in the histogram")
     eq = Equiv(vec=is_vec, rewrites=std_rewrites() + [hist_rewrite], modelled={"numpy.histogram", "numpy.arange"})
-    pipe_verdict = compare_function(r, "C05-PIPE", D + "pcDelta", SPEC, "pcDelta: histogram (count slot, bins forwarded) of the condensed self distances or of the cross matrix of the down-sampled collections; "
+    pipe_verdict = compare_function(r, pre + "C05-PIPE", D + "pcDelta", SPEC, "pcDelta: histogram (count slot, bins forwarded) of the condensed self distances or of the cross matrix of the down-sampled collections; "
                      "raw counts / counts over total / (counts + c) over (total + 2c); bins == 0 returns pc of the same arguments", eq=eq, key="pipeline and arithmetic")
     # path agreement at pseudocount = 0
     s = r.A.summary(D + "pcDelta")
@@ -159,8 +157,18 @@ def run(r):
                 continue
             n += 1
             ok = eq.leaf_eq(a0, b)
-            rep.ob("C05-RF", D + "pcDelta", ok, "the pseudocount form reduces to counts / total at pseudocount = 0", where_of(r.P, s.func, s.func.node), expected=eq.last[1] if eq.last else "", found=eq.last[0] if eq.last else "", key=f"agreement at c=0 #{n}")
-    rep.require(n >= 1 or pipe_verdict is None, "C05-RF: no pair of normalised leaves to compare at pseudocount = 0")
+            rep.ob(pre + "C05-RF", D + "pcDelta", ok, "the pseudocount form reduces to counts / total at pseudocount = 0", where_of(r.P, s.func, s.func.node), expected=eq.last[1] if eq.last else "", found=eq.last[0] if eq.last else "", key=f"agreement at c=0 #{n}")
+    rep.require(n >= 1 or pipe_verdict is None, pre + "C05-RF: no pair of normalised leaves to compare at pseudocount = 0")
+    rep.floor(pre + "C05-PIPE", 1)
+
+
+def run(r):
+    rep = r.rep
+    rep.explanation = "Every return path of pcDelta, the default-metric table, downsample and the background loader were normalised and compared with the specification; the shipped table's index was read."
+    rep.trust(LIB_FACTS["numpy.histogram"], LIB_FACTS["numpy.random.choice"], LIB_FACTS["DataFrame.sample"], "exact arithmetic (no floating point)")
+    # purity first: cheap, robust, and a recorded violation takes precedence over a later 'cannot decide'
+    check_pure_params(r, "C05-PURE", [D + "pcDelta", D + "downsample", D + "get_default_metric_for_input_data"])
+    pipeline_rules(r)
     default_metric_rules(r)
     downsample_rule(r, "C05-DS")
     # background bins
